@@ -80,7 +80,8 @@ Proof.
   exact (long_lived_refuted_lemma _ (fun H sz c r s0 n Hz A => proj1 (proj2 (H sz c r s0 n Hz A)))).
 Qed.
 
-(* the instance that describes the current source *)
-Theorem long_lived_for_code :
-  if read_steps_back then long_lived_consistent_statement true else ~ long_lived_consistent_statement false.
-Proof. unfold read_steps_back; simpl; first [exact rd_read_fixed | exact long_lived_refuted_statement]. Qed.
+(* the current source (read_steps_back is regenerated from src/raw.c at every run;
+   since fix b8d419e it is `true`): the full statement.  Should the step back
+   disappear again this proof no longer checks. *)
+Theorem long_lived_consistent : long_lived_consistent_statement read_steps_back.
+Proof. exact rd_read_fixed. Qed.
